@@ -60,9 +60,9 @@ impl JValuable for &CanonStream {
             None => (
                 SecurityTetraplet::new(
                     exec_ctx.run_parameters.current_peer_id.to_string(),
+                    "",
+                    "",
                     lambda.to_string(),
-                    "",
-                    "",
                 ),
                 root_provenance.clone(),
             ),
